@@ -55,6 +55,13 @@ def step (os : OState) (line : String) : OState × String :=
     (os, m ++ "\t" ++ v)
   | "rr" :: _ =>
     -- C16 end to end: whatever bytes arrive as a request head, the client gets a well-formed HTTP response
+    if (fs.drop 1).head? = some "tunnel2" then
+      -- C10: the exchange after an odd one gets ITS OWN answer, or finds the tunnel closed
+      (os, obs ++ "\t" ++
+        (if obs.startsWith "panic" then "bad:panic"
+         else if (obs.splitOn " then own-answer").length > 1 || (obs.splitOn " then closed").length > 1 then "ok"
+         else "bad:tunnel-exchange-answered-with-something-else"))
+    else
     (os, (if obs.startsWith "status:" then obs else "status:any") ++ "\t" ++
       (if obs.startsWith "status:" then "ok"
        else if obs.startsWith "panic" then "bad:panic"
